@@ -2,6 +2,8 @@ package config
 
 import "sync"
 
+import "github.com/safing/portbase/utils/vhook"
+
 type safe struct{}
 
 // Concurrent makes concurrency safe get methods available.
@@ -22,6 +24,7 @@ func (cs *safe) GetAsString(name string, fallback string) StringOption {
 		defer lock.Unlock()
 		if !valid.IsSet() {
 			valid = getValidityFlag()
+			vhook.AtS("config.get.refetch", name)
 			option, valueCache = getValueCache(name, option, OptTypeString)
 			if valueCache != nil {
 				value = valueCache.stringVal
@@ -48,6 +51,7 @@ func (cs *safe) GetAsStringArray(name string, fallback []string) StringArrayOpti
 		defer lock.Unlock()
 		if !valid.IsSet() {
 			valid = getValidityFlag()
+			vhook.AtS("config.get.refetch", name)
 			option, valueCache = getValueCache(name, option, OptTypeStringArray)
 			if valueCache != nil {
 				value = valueCache.stringArrayVal
@@ -74,6 +78,7 @@ func (cs *safe) GetAsInt(name string, fallback int64) IntOption {
 		defer lock.Unlock()
 		if !valid.IsSet() {
 			valid = getValidityFlag()
+			vhook.AtS("config.get.refetch", name)
 			option, valueCache = getValueCache(name, option, OptTypeInt)
 			if valueCache != nil {
 				value = valueCache.intVal
@@ -100,6 +105,7 @@ func (cs *safe) GetAsBool(name string, fallback bool) BoolOption {
 		defer lock.Unlock()
 		if !valid.IsSet() {
 			valid = getValidityFlag()
+			vhook.AtS("config.get.refetch", name)
 			option, valueCache = getValueCache(name, option, OptTypeBool)
 			if valueCache != nil {
 				value = valueCache.boolVal
